@@ -7,10 +7,22 @@ SEQ_NOTE = ("Bounds: histories up to the depth completed (reported in evidence),
             "payloads up to a few hundred bytes. Trusted base: Go toolchain/runtime, tmpfs, the os/sync/time shims (they forward to the real "
             "primitives), the list model and the result-driven legality rules, the independent reference codec.")
 
+def seq(text, ref, technique="explicit-state BFS over API histories on the real code vs list model"):
+    return dict(engine="seqx", cat="model_checking", technique=technique, text=text, ref=ref, note=SEQ_NOTE)
+
 checks = {
- "C01": dict(engine="seqx", cat="model_checking", technique="explicit-state BFS over API histories on the real code vs list model",
-   text="Exhaustive breadth-first exploration of all API histories over the family alphabets (publish 0-3, every single delete, delete-all, delete-newest-segment, reopen plain/Recover/Check, reopen with index files removed, GC, Sync) up to the reported depth, on the real code through a build overlay; after every transition a cursor walk from OffsetOldest with maxCount 1,2,3,40 must equal the list model byte for byte. Complete inside the bounds, silent beyond them.",
-   ref="DESIGN.md 3.1, 4/C01", note=SEQ_NOTE),
+ "C01": seq("Exhaustive breadth-first exploration of all API histories over the family alphabets (publish 0-3 with every key/value shape and time pattern, every single delete, delete-all, delete-newest-segment, DeleteMulti, trim and compaction helpers, reopen plain/Recover/Check, reopen with index files removed, GC, Sync; rollover 1 byte .. 1 MiB; four index configurations; V1 and V2) up to the reported depth, on the real code through a build overlay; after every transition a cursor walk from OffsetOldest with maxCount 1,2,3,40 must equal the list model byte for byte. Complete inside the bounds, silent beyond them.", "DESIGN.md 3.1, 4/C01"),
+ "C02": seq("Same engine over the 'tail' alphabet (publish 0-2, delete last / first / all / whole head / whole reader segment, reopen plain/Recover/Check/with indexes removed, Sync) for 4 index configurations x V1/V2 plus the core family: Publish must return model.Next+n and write back exactly the offsets in between over the bogus ones supplied, NextOffset/Sync must equal the model counter after every step, unique value tags make any reuse visible in the scan.", "DESIGN.md 4/C02"),
+ "C03": seq("At every state of the core/cfg/roll/tail families: Consume(o,m) for every o in [-5,Next+2] and m in {1,2,3,40} (thorough 1..40) judged by the result-driven cursor rule on the list model, plus cursor walks that must visit every live message once and end at NextOffset.", "DESIGN.md 4/C03"),
+ "C04": seq("At every state of the core/cfg/roll/tail families: Get(o) for every o in [0,Next+2] and both relative offsets, classified live / deleted (ErrNotFound) / unassigned (ErrInvalidOffset) against the list model.", "DESIGN.md 4/C04"),
+ "C09": seq("BFS over the 'collide' alphabet whose key set contains three genuine FNV-1a-64 collisions between distinct 8-byte keys (re-verified against index.KeyHash at start), nil and empty keys and an absent key whose hash is present; at every state GetByKey/OffsetByKey for every key, a ConsumeByKey cursor per key and ConsumeByKey from every start offset, against the list model.", "DESIGN.md 4/C09"),
+ "C10": seq("BFS over the 'times' alphabet (non-decreasing times with equal runs that straddle segment boundaries, deletes, reopen, Recover, index rebuild) plus the core/cfg/roll/inputs/helpers families; at every state GetByTime/OffsetByTime for every microsecond from min-2 to max+2 against the list model; ErrNoIndex without the index.", "DESIGN.md 4/C10"),
+ "C11": seq("At every close point of the 'ixfiles' histories (publish, deletes incl. whole head, Recover, read-only round trip, index removal, Migrate; 4 index configs, V1/V2): every index file is compared item by item with the index an independent reference codec derives from its log file, and copies of the directory with each single index file / all (thorough: every subset) removed are opened read-write and read-only and must answer the full observation identically (differential fingerprints), including Stat right after Open.", "DESIGN.md 4/C11"),
+ "C12": seq("BFS over the 'del' alphabet; at every state, as leaves: DD(S) (Delete twice) for every subset S of [0,Next+1], sets with relative offsets, DeleteMulti and DeleteMultiOffsets for every subset of the live offsets; every Delete pass is judged by the result-driven rule (returned subset of requested and live, byte-identical content, size = sum of storage sizes in the version of the segment the message was in), followed by a scan that must equal model minus returned.", "DESIGN.md 4/C12"),
+ "C15": seq("BFS over a times-style alphabet (holes, multi-segment, empty head, index rebuild); at every state FindByOffset/Count/Size/Age for every bound in covering sets (as observation), and as leaves every Trim* / Trim*Multi / Trim*MultiOffsets call for the same bounds: selected set must be a prefix of the live sequence, exactly that prefix is removed, and the bound-specific predicate holds afterwards.", "DESIGN.md 4/C15"),
+ "C16": seq("BFS over the 'kv' alphabet (keys a, b, nil; values and tombstones; equal and increasing times; deletes; reopen) with up to two (thorough three) compaction letters per history: CompactUpdates/CompactDeletes in single, Multi and MultiOffsets form for every cut-off from min-1 to max+1, and Compact(age); key->latest-value map identical before/after, removed sets satisfy the property's membership predicates.", "DESIGN.md 4/C16"),
+ "C17": seq("BFS over the 'versions' alphabet: publish, deletes, 8 reopen letters re-drawing NewSegmentsVersion x KeepRewriteVersion x EagerVersionMigrate, Migrate to V1/V2 once and twice, for 4 index configs starting from V1 and V2; full observation against the list model after every letter plus the version byte of every segment file (read by the harness) against what the options demand.", "DESIGN.md 4/C17"),
+ "C20": seq("BFS over source states (any layout, holes, empty head, V1/V2) extended by up to three backups per history (new directory / same directory, Log.Backup / package-level Backup) with publish-only steps in between; after each backup the source files are byte-identical, Check(backup) and Open(Check) succeed and the opened backup's full observation transcript equals the source's.", "DESIGN.md 4/C20"),
 }
 
 not_applicable = []
